@@ -12,8 +12,7 @@
             `TagNode.iterate_children`.
    Layer 3  the walks (Section Walk), written over the primitives only: iterate_children, __len__, __getitem__,
             first/last_child, index, fetch/iterate_*_sibling(s), the explicit-stack loop of iterate_descendants,
-            last_descendant, iterate_ancestors and depth (with the truthiness test `if parent:` = `len(parent) != 0`
-            under the ambient filter), _iterate_following (climb to an ancestor's sibling), _iterate_preceding (whose
+            last_descendant, iterate_ancestors and depth (parents tested with `is not None`), _iterate_following (climb to an ancestor's sibling), _iterate_preceding (whose
             decorator has no effect: it runs under the caller's ambient filter), full_text, the three traversers,
             _sort_nodes_in_document_order.
    `D` is the ambient filter `default_filters[-1]` (as one predicate), `F` the filters passed by the caller.
@@ -339,35 +338,34 @@ Section Walk.
   Definition w_last_descendant (D : nfilter) (n : nid) : res (option nid) :=
     c <- w_last_child D n ;; match c with None => Ok None | Some x => r <- ld_loop fc D x ;; Ok (Some r) end.
 
-  (* iterate_ancestors: `if parent:` is len(parent) != 0 under the ambient filter *)
-  Fixpoint anc_loop (fuel : nat) (D F : nfilter) (n : nid) : res (list nid) :=
+  (* iterate_ancestors: `if parent is not None:` (the ambient filter is not consulted) *)
+  Fixpoint anc_loop (fuel : nat) (F : nfilter) (n : nid) : res (list nid) :=
     match fuel with
     | O => OutOfFuel
     | S f => p <- parent n ;;
              match p with
              | None => Ok []
-             | Some p => tr <- w_truthy D p ;;
-                         if tr then r <- anc_loop f D F p ;; Ok (if F p then p :: r else r) else Ok []
+             | Some p => r <- anc_loop f F p ;; Ok (if F p then p :: r else r)
              end
     end.
   Definition w_iterate_ancestors := anc_loop fc.
 
-  (* depth: TagNode counts `while node.parent:`; the others are parent.depth + 1; a DETACHED text node has depth 0 *)
-  Fixpoint tag_depth (fuel : nat) (D : nfilter) (node : nid) (acc : nat) : res nat :=
+  (* depth: TagNode counts `while node.parent is not None:`; the others are parent.depth + 1; a DETACHED text node has depth 0 *)
+  Fixpoint tag_depth (fuel : nat) (node : nid) (acc : nat) : res nat :=
     match fuel with
     | O => OutOfFuel
     | S f => p <- parent node ;;
              match p with
              | None => Ok acc
-             | Some p => tr <- w_truthy D p ;; if tr then tag_depth f D p (S acc) else Ok acc
+             | Some p => tag_depth f p (S acc)
              end
     end.
-  Definition w_depth (D : nfilter) (n : nid) : res nat :=
-    if is_tag n then tag_depth fc D n 0
+  Definition w_depth (n : nid) : res nat :=
+    if is_tag n then tag_depth fc n 0
     else p <- parent n ;;
          match p with
          | None => if is_text n then Ok 0%nat else Crash AttributeError
-         | Some p => d <- tag_depth fc D p 0 ;; Ok (S d)
+         | Some p => d <- tag_depth fc p 0 ;; Ok (S d)
          end.
 
   (* _iterate_following *)
@@ -498,8 +496,8 @@ Section OnHeap.
   Definition h_iterate_preceding_siblings := w_iterate_preceding_siblings PV fu.
   Definition h_iterate_descendants := w_iterate_descendants FR NX TG fu fu.
   Definition h_last_descendant := w_last_descendant FR NX TG fu.
-  Definition h_iterate_ancestors := w_iterate_ancestors FR NX PA TG fu.
-  Definition h_depth := w_depth FR NX PA TG TX fu.
+  Definition h_iterate_ancestors (D : nfilter) := w_iterate_ancestors PA fu.      (* D: not consulted *)
+  Definition h_depth (D : nfilter) := w_depth PA TG TX fu.
   Definition h_iterate_following := w_iterate_following FR NX PA TG fu fu.
   Definition h_iterate_preceding := w_iterate_preceding FR NX PV PA TG fu fu.
   Definition h_full_text := w_full_text FR NX TG TX CT fu fu.
